@@ -60,6 +60,23 @@ def gen_cases(ctx, kind="full"):
                     ["fifo", 1, True], ["fifo", 1, False], ["read"], ["read"], ["read_n"],
                     ["clear", rng.randrange(2), rng.randrange(2), rng.randrange(2)],
                     ["flush_rx"], ["flush_tx"], ["last_tx_arc"]]))
+        if kind == "full":
+            rb = ctx.sub_rng("c10b", i)
+            # static lengths set pipe by pipe through the function form, some of them outside 1..32
+            # (documented: clamped) - what the accessors report is what the radio holds
+            if mode in ("static", "mixed") and rb.random() < 0.3:
+                raw = list(case["static_len"])
+                for _ in range(rb.choice([1, 2])):
+                    raw[rb.randrange(6)] = rb.choice([33, 40, 255, 0, 64])
+                case["pl_raw"] = raw
+                case["static_len"] = [max(1, min(32, x)) for x in raw]
+            # other settings of the link assigned between the accessor calls (CRC length on both ends,
+            # channel, power amplifier): the FIFO/status accessors and the IRQ mask are not their business
+            for _ in range(rb.choice([0, 0, 1, 2, 3])):
+                case["ops"].insert(rb.randrange(len(case["ops"]) + 1),
+                                   rb.choice([["linkcfg", "crc", 1], ["linkcfg", "crc", 2], ["linkcfg", "channel", 76],
+                                              ["linkcfg", "channel", 5], ["linkcfg", "pa_level", -12],
+                                              ["linkcfg", "address_length", 5]]))
         # the application asks the driver what role / power state it is in, here and there
         for q in range(len(case["ops"]), -1, -1):
             if (q * 5 + case["seed"]) % 7 == 0:
@@ -100,6 +117,10 @@ def _run(ctx, case, rig, rd, rp, dut, peer, prefix, kind):
         elif mode == "mixed":
             dut.dynamic_payloads = case["dyn_mask"]
             dut.payload_length = list(sl)
+        if case.get("pl_raw"):
+            for i_, v_ in enumerate(case["pl_raw"]):
+                dut.set_payload_length(v_, i_)
+            ctx.clause("static_lengths_set_per_pipe_incl_out_of_range")
         dut.arc = 3
         dut.ard = 500
     else:
@@ -189,6 +210,17 @@ def _run(ctx, case, rig, rd, rp, dut, peer, prefix, kind):
             else:
                 peer.dynamic_payloads = True
             peer.listen = True
+            continue
+        if name == "linkcfg":
+            for _ in range(100):
+                if rd.act is None:
+                    break
+                node.idle(200000)
+            setattr(dut, op[1], op[2])
+            setattr(peer, op[1], op[2])
+            ctx.clause("link_setting_assigned_between_accessor_calls")
+            if not check_irq("%s = %r" % (op[1], op[2])):
+                return
             continue
         if name == "arc":
             if rng_arc[0] % 2 and kind == "full":
